@@ -388,6 +388,26 @@ def memo_frame(timeout_ms=None):
         glob = sorted({n.id for n in __import__("ast").walk(f.node) if isinstance(n, __import__("ast").Global)})
         rep.add(f"{q}#C10.frame.no-global-writes", "unsat" if not glob else "sat", 0.0, "ast-frame", model={"global": glob} if glob else None)
     rep.functions["frame:uncompared-fields"] = {"hash": None, "mode": "dataclass fields excluded from ==/hash", "paths": 0, "cases": len(rs.unc), "fields": rs.unc}
+    # the whitelist rests on the lazy cache being a function of the compared fields: the only code that may set `_specifier` is the accessor
+    # `specifier` (from _get_specifier()) and from_specifier (whose installs are under the C10.from_specifier.* obligations, all paths)
+    import ast as _ast
+    sites = []
+    for m in ix.modules.values():
+        fs = list(m.functions.values()) + [f for c in m.classes.values() for f in c.methods.values()]
+        for f in fs:
+            for n in _ast.walk(f.node):
+                if isinstance(n, _ast.Call) and any(k.arg == "_specifier" and not (isinstance(k.value, _ast.Constant) and k.value.value is None) for k in n.keywords):
+                    sites.append((f.qualname, "keyword", n.lineno))
+                elif isinstance(n, (_ast.Assign, _ast.AugAssign, _ast.AnnAssign)):
+                    for tg in (n.targets if isinstance(n, _ast.Assign) else [n.target]):
+                        if isinstance(tg, _ast.Attribute) and tg.attr == "_specifier":
+                            sites.append((f.qualname, "assignment", n.lineno))
+                elif isinstance(n, _ast.Call) and isinstance(n.func, _ast.Name) and n.func.id in ("setattr",) and any(isinstance(a, _ast.Constant) and a.value == "_specifier" for a in n.args):
+                    sites.append((f.qualname, "setattr", n.lineno))
+    allowed = {("dep_logic.markers.single:MarkerExpression.specifier", "assignment"), ("dep_logic.markers.single:MarkerExpression.from_specifier", "keyword")}
+    stray = [s for s in sites if (s[0], s[1]) not in allowed]
+    rep.functions["frame:view-install-sites"] = {"hash": None, "mode": "every place that sets MarkerExpression._specifier", "paths": 0, "cases": len(sites), "sites": [list(s) for s in sites]}
+    rep.add("frame#C10.frame.view-installed-only-by-accessor-or-from_specifier", "unsat" if not stray else "sat", 0.0, "ast-frame", model={"sites": [list(s) for s in stray]} if stray else None)
     return rep
 
 
